@@ -136,7 +136,7 @@ inductive Obs where
   | req (s t : Nat)
   | resp (s t : Nat)
   | got (t u : Nat)
-deriving Repr
+deriving Repr, DecidableEq
 
 structure Mon where
   cap : Nat
